@@ -1,5 +1,6 @@
 import PsaDhcp.Model.Bytes
 import PsaDhcp.Model.Dhcp
+import PsaDhcp.Model.Client
 /-
 Target language of the Go→Lean translator (`/verif/xlate`): the handful of Go primitives that the
 translated functions use, with Go's partiality made explicit.
@@ -168,6 +169,33 @@ def fmtDec (i : Int) : Bytes :=
 and truncates; this integer reading agrees for all `d ≥ 0` whose fractional part does not round up to a whole second
 in a 53-bit mantissa (every duration below 2^22 s, and every whole-second duration) — trusted, see DESIGN.md §13.3. -/
 def durSecondsU32 (d : Int) : UInt32 := u32OfInt (Int.tdiv d 1000000000)
+
+/-- `ip.DefaultMask()`: the class A/B/C mask of an IPv4 address (nil when `ip` has no 4-byte form). -/
+def ipDefaultMask (ip : Bytes) : Bytes :=
+  match Ip4.ofBytes? (to4 ip) with
+  | some i => (defaultMask i).bytes
+  | none => []
+
+/-- `m.Size()`: (ones, bits) of a canonical mask, (0, 0) otherwise. -/
+def maskSize (m : Bytes) : Int × Int :=
+  match Ip4.ofBytes? m with
+  | some i => if canonicalMask i then (Int.ofNat (((List.range 33).filter (fun k => i.toNat = 4294967296 - 2 ^ (32 - k))).headD 0), 32) else (0, 0)
+  | none => (0, 0)
+
+/-- `time.Duration(float64(d) * k)` for the constant `k = num/den` (0.5, 0.875): the exact product rounded to a
+53-bit mantissa, as `Model/Client.lean` computes it (trusted for durations of whole seconds; DESIGN.md §13.3). -/
+def durTimesFloat (d : Int) (num den : Nat) : Int := Int.ofNat (round53 (d.toNat * num / den))
+
+/-- A socket handle: what is read from and written to it goes through the environment. -/
+abbrev Sock := Unit
+
+/-- `n, _ := s.Read(buf)` for an incoming frame `data`: the first `len(buf)` bytes are stored, `n` of them. -/
+def readInto (buf data : Bytes) : Bytes × Int :=
+  (overwrite buf 0 (data.take buf.length), Int.ofNat (min data.length buf.length))
+
+/-- `*p` / `p.f` for a `*T` a call returned (nil is a nil-pointer dereference). -/
+def derefOpt {α : Type} (p : Option α) (site : String) : R α :=
+  match p with | some v => pure v | none => throw (.panic site)
 
 /-! Pointers to records of one type, inside the package that owns them: `nil` or an index into the list of all
 records allocated so far (the heap).  A dereference of `nil` is a Go panic. -/
